@@ -59,7 +59,7 @@ RATIONAL_TABLES = [('T0/3', '2*T0/3'), ('T1/5', 'T1/5 + T0/3'), ('T0/7', 'T0/3')
 # short decimals as they come out of numpy.linspace(0.1, 0.5, 5).round(1) and friends (none of them dyadic but 0.5)
 DECIMAL_VALUES = [0.1, 0.2, 0.3, 0.4, 0.5, 0.7, 1.2, 2.35, 0.05]
 # generator shapes beyond the default stream, see notes/C04.md "Seeded changes"
-GEN = {'int_chan_p': 0.1, 'typed_p': 0.4, 'reuse_p': 0.15, 'nest_wrap_p': 0.1}
+GEN = {'int_chan_p': 0.1, 'typed_p': 0.4, 'reuse_p': 0.15, 'nest_wrap_p': 0.1, 'self_map_p': 0.3}
 
 
 def rational_case(rng: random.Random):
@@ -172,6 +172,52 @@ def _nested_reps_case(rng: random.Random):
     return case
 
 
+def enforced_case(rng: random.Random):
+    for _ in range(20):
+        try:
+            return _enforced_case(rng)
+        except Exception:   # noqa -- an ill-formed draw
+            continue
+    raise core.MachineryError('could not draw an enforced-duration case')
+
+
+def _enforced_case(rng: random.Random):
+    """AtomicMultiChannelPT(..., duration=D): D is a parameter that agrees with the sub-templates (the program lasts D)
+    or contradicts them (instantiation has to fail: whenever a program is returned it lasts what the template says).
+    One, two or three sub-templates; in half of the cases all but one lose their channels (MappingPT -> None or the top
+    level channel mapping), so that exactly one sub-waveform survives."""
+    g = ptgen.Gen(rng, 2, measure_p=0.0)
+    env, values = g.params()
+    common = g.p2time(env)
+    n = rng.choice([1, 1, 2, 2, 3])
+    chans = ptgen.CHAN_POOL[:n]
+    subs = [ptgen.strip(g.atom([c], env, common, None, allow_multi=False)) for c in chans]
+    cm = {}
+    if n > 1 and rng.random() < 0.6:
+        for i, c in enumerate(chans[1:], 1):
+            if rng.random() < 0.5:
+                subs[i] = {'k': 'map', 'body': subs[i], 'pm': None, 'mm': None, 'cm': [[c, None]]}
+            else:
+                cm[c] = None
+    contradict = rng.random() < 0.45
+    values['D'] = float(common[1] * rng.choice([2, F(1, 2), 4]) if contradict else common[1])
+    spec = {'k': 'amulti', 'subs': subs, 'dur': rng.choice(['D', 'D', '2*D/2']), 'meas': [], 'cons': []}
+    k = rng.random()
+    if k < 0.25:
+        spec = {'k': 'rep', 'body': spec, 'count': '2', 'meas': [], 'cons': []}
+    elif k < 0.45:
+        spec = {'k': 'seq', 'subs': [spec, ptgen.strip(g.atom([chans[0]], env, None, None, allow_multi=False))], 'meas': [], 'cons': []}
+        if cm:
+            cm = {}
+            spec['subs'][0]['subs'] = [s if i == 0 or s['k'] == 'map' else {'k': 'map', 'body': s, 'pm': None, 'mm': None,
+                                       'cm': [[chans[i], None]]} for i, s in enumerate(subs)]
+    elif k < 0.6:
+        spec = {'k': 'map', 'body': spec, 'pm': [['D', 'D']], 'mm': None, 'cm': None}
+    pt = ptgen.build(spec)
+    return {'spec': spec, 'params': {k: v for k, v in values.items() if k in pt.parameter_names}, 'cm': cm, 'mm': None,
+            'single': [], 'enforced': True}
+
+
 def run(ctx: core.Ctx):
     ctx.rule = ('three number streams over the C01 template generator: (1) integers and dyadics - all four quantities and '
                 'the template duration must be equal rationals; (2) short decimals given directly as durations '
@@ -183,7 +229,7 @@ def run(ctx: core.Ctx):
                 'these cases with short non-dyadic decimal parameters handed over as python float / numpy.float64 / TimeType '
                 '(integers as int / numpy.int64): the exact durations do not depend on the type that carries a value, a '
                 'float of either kind means its shortest decimal representation; typed parameter values in 40% of streams '
-                '(1) and (2) as well. (5) three to five directly nested repetitions over non-constant bodies, optionally separated by levels that run once. Plus all nestings of depth <= 3 over two atoms and a malformed stream. Non-trivial = a '
+                '(1) and (2) as well. (5) three to five directly nested repetitions over non-constant bodies, optionally separated by levels that run once. (6) AtomicMultiChannelPT with an enforced duration that agrees with / contradicts its sub-templates, all but one sub-template dropped; mappings that re-define a time / count parameter by itself. Plus all nestings of depth <= 3 over two atoms and a malformed stream. Non-trivial = a '
                 'program is produced from a tree with more than one node')
     ctx.assumptions = [
         'TimeType.from_float turns a float into the rational of its shortest decimal representation (C14)',
@@ -203,6 +249,9 @@ def run(ctx: core.Ctx):
     base = ctx.fork('nested-reps').getrandbits(48)
     descs += [ck.desc(family='custom', make=nested_reps_case, seed=base + i, label='nested-repetitions')
               for i in range(ctx.n(120, 2500))]
+    base = ctx.fork('enforced').getrandbits(48)
+    descs += [ck.desc(family='custom', make=enforced_case, seed=base + i, label='enforced-duration')
+              for i in range(ctx.n(100, 2000))]
     base = ctx.fork('malformed').getrandbits(48)
     descs += [ck.desc(family='malformed', seed=base + i) for i in range(ctx.n(100, 2000))]
     ck.run_batch(descs)
